@@ -738,12 +738,19 @@ Proof. intro tool. reflexivity. Qed.
 Lemma starts_ext_label : forall tool, starts_with ext_prefix (ext_label ++ tool) = true.
 Proof. intro tool. reflexivity. Qed.
 
-Theorem astool_codec : forall side tool, starts_with ext_prefix tool = false ->
+(* a sideloaded area: every tool name, also one that itself starts with "externally annotated" *)
+Theorem astool_sideloaded_codec : forall tool, astool_decode (astool_text true tool) = Ok (true, tool).
+Proof.
+  intro tool. unfold astool_decode, astool_text.
+  rewrite starts_ext_label, split_ext_label. reflexivity.
+Qed.
+
+Theorem astool_codec : forall side tool, (side = false -> starts_with ext_prefix tool = false) ->
   astool_decode (astool_text side tool) = Ok (side, tool).
 Proof.
-  intros side tool H. destruct side; unfold astool_decode, astool_text.
-  - rewrite starts_ext_label, split_ext_label, H. reflexivity.
-  - rewrite H. reflexivity.
+  intros side tool H. destruct side.
+  - apply astool_sideloaded_codec.
+  - unfold astool_decode, astool_text. rewrite (H eq_refl). reflexivity.
 Qed.
 
 (* "externally annotated by me" ; "externally annotated: x" ; "in-house pipeline: pass 2" *)
@@ -754,11 +761,17 @@ Definition W_tool_plain : str :=
 Definition W_tool_colon : str :=
   [105; 110; 45; 104; 111; 117; 115; 101; 32; 112; 105; 112; 101; 108; 105; 110; 101; 58; 32; 112; 97; 115; 115; 32; 50].
 
-Lemma astool_prefix_refuted :
-  astool_decode (astool_text true W_tool_rec) = Err E_Runtime /\
+(* the witness of the repaired finding C10-F62 is read back as written *)
+Lemma astool_prefix_repaired :
+  starts_with ext_prefix W_tool_rec = true /\
+  astool_decode (astool_text true W_tool_rec) = Ok (true, W_tool_rec).
+Proof. split; reflexivity. Qed.
+
+(* the proviso left on ordinary areas is needed: the prefix is the marker of the sideloaded classes *)
+Lemma astool_marker_reserved :
   astool_decode (astool_text false W_tool_plain) = Ok (true, [120]) /\
   astool_decode (astool_text false ext_prefix) = Err E_Index.
-Proof. repeat split; reflexivity. Qed.
+Proof. split; reflexivity. Qed.
 
 (* ---- number lists ---- *)
 Theorem numbers_codec : forall l, numbers_parse (numbers_text l) = Ok l.
